@@ -104,9 +104,18 @@ CLAIMED = {
         "lattice is the weighted least-squares fit of the selected peaks (C06); parallel/zero start vectors and too few "
         "matches give the invalid match; translation invariance of the indices; operators and source text of both rounds "
         "pinned; rigid equivariance: for every rational orthogonal map (rotations, reflections) and translation the match "
-        "of the moved inputs is the moved match (same selector and indices, lattice mapped), invalid stays invalid. NOT "
-        "proved: the quantitative robustness window (start within ~1 px / 0.2 px, 0.3 px inliers kept, half-cell outliers "
-        "rejected) and irrational rotation angles - decided by the differential oracle only.",
+        "of the moved inputs is the moved match (same selector and indices, lattice mapped), invalid stays invalid. The "
+        "robustness window in exact arithmetic: for one round against ANY lattice with vectors 60..120 deg apart a peak "
+        "displaced by e from node (i,j) is selected with indices (i,j) when (8/3)|e|^2 < tol^2 and (16/3)|e|^2 < min(|a|^2,"
+        "|b|^2) (inlier_matched; e carries the noise and the start error at that node), a peak half a cell away is rejected "
+        "when tol^2 max(1,|index|) <= (1/2-eta)^2 |a|^2 (half_cell_rejected); END TO END for noise-free node peaks "
+        "(fastmatch_exact_recovery): from any start whose first round catches only node peaks with their true indices "
+        "(>= min_match of them, rank 3) both rounds and both fits return EXACTLY the true lattice, select exactly the strong "
+        "node peaks (weak peaks and rejected outliers excluded, node peaks missed by round one recovered) with their true "
+        "indices; rank 3 of the final selection follows from rank 3 of round one because the determinant of the normal matrix "
+        "is monotone under adding observations with non-negative weights (det_mono_sublist). Instances are run on the compiled "
+        "model (exact equality) and on the implementation (1e-9). NOT proved: the composition of both rounds for NOISY peaks "
+        "(how far the first fit moves the lattice) and irrational rotation angles - decided by the differential oracle only.",
         "Lean kernel + standard axioms; translator; A-LA; rank-deficient selections (minimum-norm lstsq) not modelled; the "
         "robustness clause is checked with a reference re-implementation and preconditions derived from the selection formula.",
         "Lean 4 proof (partial: invariants, selection rule, WLS result) + exact-rational differential correspondence of both rounds",
@@ -204,7 +213,9 @@ CLAIMED = {
         "for every shape (convolution theorem); for sign-matched templates and disks separated by more than twice the "
         "template support every disk centre is a strict maximum of its neighbourhood and the background between disks is "
         "no higher than any centre (separated_disks_local, separated_background, separated_disk_is_strict_peak). "
-        "peak_local_max itself and strict local maximality for non-matching templates are oracle-only.",
+        "peak_local_max itself and strict local maximality for non-matching templates are oracle-only. Known finding D18 "
+        "(RadialGradient(3.11): side lobes of 0.24 % outrank disks fainter than 1/420 of another disk) is classified with an "
+        "independently computed float64 correlation map and reported as KNOWN-FINDING.",
         "Lean kernel + standard axioms; translator; A-FFT, A-EXT (skimage).",
         "Lean 4 proof (partial) + exact small-shape correspondence + disk-field oracle",
         "DESIGN.md §7 C07"),
